@@ -265,7 +265,8 @@ impl Driver {
     /// Write bytes on connection i, wait until the server is idle again.
     /// Returns the sizes of the reads the server performed (0 = end of stream).
     pub fn write_wait(&mut self, i: usize, bytes: &[u8]) -> Vec<usize> {
-        let pending0 = hook::begun() - hook::done();
+        let done0 = hook::done();
+        let pending0 = hook::begun() - done0;
         let r0 = hook::bytes();
         let idx0 = hook::sizes_len();
         let c = self.conns.get_mut(&i).unwrap();
@@ -278,8 +279,15 @@ impl Driver {
         let t0 = Instant::now();
         loop {
             c.drain();
-            let pending = hook::begun() - hook::done();
-            if hook::bytes() >= r0 + n && pending >= pending0 {
+            // the hook publishes a finished read in three steps (size, byte count, done
+            // count): only a consistent snapshot counts
+            let bytes = hook::bytes();
+            let sizes = hook::sizes_len();
+            let done = hook::done();
+            let begun = hook::begun();
+            let pending = begun - done;
+            let consistent = (sizes - idx0) as u64 == done - done0 && hook::sizes_len() == sizes && hook::done() == done;
+            if consistent && bytes >= r0 + n && pending >= pending0 {
                 break; // everything read, and the connection waits for more
             }
             if c.closed && pending + 1 >= pending0 {
